@@ -984,6 +984,12 @@ from contracts.worker import UNITS_SINGLE, UNITS_BATCH      # noqa: E402
 from contracts.servlet import UNITS_FORWARD, UNITS_DEQUEUE      # noqa: E402
 from contracts.server import GatherUnit, AGatherUnit      # noqa: E402
 UNITS += [u for u in list(UNITS_SINGLE) + list(UNITS_BATCH) + list(UNITS_FORWARD) + list(UNITS_DEQUEUE) + [GatherUnit, AGatherUnit] if u not in UNITS]
-SCENARIOS = [('', 'replay/scenarios/c11_init_failure_cleanup.py'), ('', 'replay/scenarios/c11_abandoned_stream_exit.py'), ('', 'replay/scenarios/c11_exit_pending_large_results.py', ('controls',)), ('', 'replay/scenarios/c11_exit_pending_large_results.py', ('batch-worker',))]
+# "all worker and helper threads gone": ProcessServlet.stop / the clean-up of a failed start JOIN each worker process, and SpawnProcess.join is what waits for that
+# process's helper threads (result collector -> logger thread): units of C12.  "after failed requests": an error value travelling through the stages is wrapped again
+# by every worker loop (RemoteException(x)); that constructor must not fail on what an upstream stage -- an ensemble, across a process boundary -- delivers: units of C15
+from contracts.c12 import ProcJoin, ProcJoinTimeout, CollectResult      # noqa: E402
+from contracts.c15 import ReInit, ReInitEnsemble, EnsembleInit, EnsembleReduce, ReReduce, RebuildUnit      # noqa: E402
+UNITS += [ProcJoin, ProcJoinTimeout, CollectResult, ReInit, ReInitEnsemble, EnsembleInit, EnsembleReduce, ReReduce, RebuildUnit]
+SCENARIOS = [('', 'replay/scenarios/c11_init_failure_cleanup.py'), ('', 'replay/scenarios/c11_abandoned_stream_exit.py'), ('', 'replay/scenarios/c11_exit_pending_large_results.py', ('controls',)), ('', 'replay/scenarios/c11_exit_pending_large_results.py', ('batch-worker',)), ('', 'replay/scenarios/c11_exit_after_failures.py')]
 # reproduction of the known finding (expected to FAIL while the finding stands; run in the thorough tier and reported in the evidence, never a violation)
 FINDING_SCENARIOS = [('no writer is left blocked', 'replay/scenarios/c11_exit_pending_large_results.py', ('several-workers',), 120)]
